@@ -254,6 +254,12 @@ type saCase struct {
 	mustErr bool
 	txMode  string // "" = default (file)
 	fk      bool   // open the target with foreign_keys on
+	// round 3
+	hcl     bool // desired is HCL (no dev database: lets the desired state hold what SQLite itself would refuse)
+	single  bool // the change set must be exactly ONE schema.Change planned as >= 2 statements
+	fkCheck bool // judge / model the commit-time foreign-key check (V line)
+	mustFk  bool // the commit must be refused with "foreign key mismatch" in the transactional modes
+	exclude string // --exclude pattern (a table of the target the diff must not see)
 }
 
 func schemaApplyCases() []saCase {
@@ -281,11 +287,107 @@ func schemaApplyCases() []saCase {
 	fkc := base[0]
 	fkc.fk = true
 	cs = append(cs, fkc)
+	cs = append(cs, schemaApplyCasesR3()...)
 	cs = append(cs,
 		saCase{name: "dry-run-of-a-valid-plan", setup: []string{"CREATE TABLE t (a INTEGER)", "INSERT INTO t VALUES (1)"},
 			desired: "CREATE TABLE t (a INTEGER, b INTEGER NULL);\nCREATE TABLE u (x INTEGER);\n", dryRun: true},
 		saCase{name: "dry-run-of-a-failing-plan", setup: dupSetup,
 			desired: "CREATE TABLE a_first (x INTEGER);\nCREATE TABLE t (a INTEGER, b INTEGER);\nCREATE UNIQUE INDEX t_a ON t (a);\n", dryRun: true})
+	return cs
+}
+
+// schemaApplyCasesR3: change sets of exactly ONE schema.Change that the SQLite planner turns
+// into several statements, a statement other than the first failing; and plans every
+// statement of which succeeds but whose result the commit-time foreign-key check refuses.
+func schemaApplyCasesR3() []saCase {
+	dup := []string{"CREATE TABLE t (a INTEGER, b INTEGER)", "INSERT INTO t VALUES (1,1)", "INSERT INTO t VALUES (1,2)",
+		"CREATE TABLE keep (x INTEGER)", "INSERT INTO keep VALUES (5)"}
+	nulls := []string{"CREATE TABLE p (a INTEGER, b INTEGER)", "INSERT INTO p VALUES (1, NULL)", "INSERT INTO p VALUES (2, 3)", "CREATE INDEX p_a ON p (a)",
+		"CREATE TABLE keep (x INTEGER)", "INSERT INTO keep VALUES (5)"}
+	hclP := `schema "main" {}
+table "p" {
+  schema = schema.main
+  column "a" {
+    type = integer
+    null = true
+  }
+  column "b" {
+    type = integer
+    null = true
+  }
+  index "p_a" {
+    columns = [column.a]
+  }
+}
+table "keep" {
+  schema = schema.main
+  column "x" {
+    type = integer
+    null = true
+  }
+}
+`
+	hclN := func(first, second, third string) string {
+		idx := func(name, col string) string {
+			return fmt.Sprintf("  index %q {\n    columns = [column.%s]\n  }\n", name, col)
+		}
+		return hclP + "table \"n\" {\n  schema = schema.main\n  column \"x\" {\n    type = integer\n    null = true\n  }\n  column \"y\" {\n    type = integer\n    null = true\n  }\n  column \"z\" {\n    type = integer\n    null = true\n  }\n" +
+			idx(first, "x") + idx(second, "y") + idx(third, "z") + "}\n"
+	}
+	single := []saCase{
+		// ModifyTable: ALTER TABLE ADD COLUMN, then CREATE UNIQUE INDEX over duplicates
+		{name: "one-change-add-column-then-unique-index-on-duplicates", setup: dup,
+			desired: "CREATE TABLE t (a INTEGER, b INTEGER, c INTEGER NULL);\nCREATE UNIQUE INDEX t_a ON t (a);\nCREATE TABLE keep (x INTEGER);\n", mustErr: true, single: true},
+		// ModifyTable: two columns and two indexes, the last index fails
+		{name: "one-change-two-columns-two-indexes-last-fails", setup: dup,
+			desired: "CREATE TABLE t (a INTEGER, b INTEGER, c INTEGER NULL, d INTEGER NULL);\nCREATE INDEX t_b ON t (b);\nCREATE UNIQUE INDEX t_a ON t (a);\nCREATE TABLE keep (x INTEGER);\n", mustErr: true, single: true},
+		// ModifyTable planned as a rebuild (create new, copy, drop, rename, re-create index): the copy fails
+		{name: "one-change-rebuild-copy-fails", setup: nulls,
+			desired: "CREATE TABLE p (a INTEGER, b INTEGER NOT NULL);\nCREATE INDEX p_a ON p (a);\nCREATE TABLE keep (x INTEGER);\n", mustErr: true, single: true},
+		// ModifyTable planned as a rebuild whose LAST statement (a new unique index on the renamed table) fails
+		{name: "one-change-rebuild-then-unique-index-fails", setup: []string{"CREATE TABLE p (a INTEGER, b INTEGER)", "INSERT INTO p VALUES (1, 4)", "INSERT INTO p VALUES (1, 3)",
+			"CREATE TABLE keep (x INTEGER)", "INSERT INTO keep VALUES (5)"},
+			desired: "CREATE TABLE p (a INTEGER, b INTEGER NOT NULL);\nCREATE UNIQUE INDEX p_a ON p (a);\nCREATE TABLE keep (x INTEGER);\n", mustErr: true, single: true},
+		// the same rebuild, but its very first real statement (CREATE TABLE new_p, after the pragma) fails: the
+		// target holds a table of that name which the diff is told not to see (--exclude)
+		{name: "one-change-rebuild-create-fails", setup: append(append([]string{}, nulls...), "CREATE TABLE new_p (z INTEGER)", "INSERT INTO new_p VALUES (8)"),
+			desired: "CREATE TABLE p (a INTEGER, b INTEGER NOT NULL);\nCREATE INDEX p_a ON p (a);\nCREATE TABLE keep (x INTEGER);\n", mustErr: true, single: true, exclude: "new_p"},
+		// AddTable with three indexes: the name of the second / third one is taken by an index of another table
+		{name: "one-change-add-table-second-index-fails", setup: nulls, desired: hclN("n_x", "p_a", "n_z"), hcl: true, mustErr: true, single: true},
+		{name: "one-change-add-table-third-index-fails", setup: nulls, desired: hclN("n_x", "n_y", "p_a"), hcl: true, mustErr: true, single: true},
+	}
+	// commit-time foreign-key check: `o` already holds a violating row (written with foreign keys off)
+	fkSetup := []string{"CREATE TABLE parent (id INTEGER PRIMARY KEY)", "INSERT INTO parent VALUES (1)",
+		"CREATE TABLE child (id INTEGER PRIMARY KEY, pid INTEGER)", "INSERT INTO child VALUES (1, 1)", "INSERT INTO child VALUES (2, 5)",
+		"CREATE TABLE o (id INTEGER PRIMARY KEY, pid INTEGER REFERENCES parent (id))", "INSERT INTO o VALUES (1, 9)"}
+	fkClean := append(append([]string{}, fkSetup[:4]...), fkSetup[5:]...) // without the orphan child row
+	parent := "CREATE TABLE parent (id INTEGER PRIMARY KEY);\n"
+	childFk := "CREATE TABLE child (id INTEGER PRIMARY KEY, pid INTEGER, CONSTRAINT c_p FOREIGN KEY (pid) REFERENCES parent (id));\n"
+	child := "CREATE TABLE child (id INTEGER PRIMARY KEY, pid INTEGER);\n"
+	o := "CREATE TABLE o (id INTEGER PRIMARY KEY, pid INTEGER REFERENCES parent (id));\n"
+	fks := []saCase{
+		// one change (rebuild of child with the new constraint): every statement succeeds, the check at commit finds the orphan
+		{name: "fk-one-change-add-constraint-over-orphan", setup: fkSetup, desired: parent + childFk + o, fk: true, fkCheck: true, single: true, mustFk: true},
+		// the same next to another change: nothing of either may stay
+		{name: "fk-add-constraint-over-orphan-and-new-table", setup: fkSetup, desired: "CREATE TABLE a_first (x INTEGER);\n" + parent + childFk + o + "CREATE TABLE zz (x INTEGER);\n", fk: true, fkCheck: true, mustFk: true},
+		// no new violation: the constraint is added over clean rows; the old violation in `o` stays what it was
+		{name: "fk-add-constraint-clean-rows-old-violation-elsewhere", setup: fkClean, desired: parent + childFk + o, fk: true, fkCheck: true, single: true},
+		// the table holding the old violation is rebuilt: same table/rowid/parent/constraint -> not new
+		{name: "fk-rebuild-table-holding-the-old-violation", setup: fkSetup, desired: parent + child + "CREATE TABLE o (id INTEGER PRIMARY KEY, pid INTEGER NOT NULL REFERENCES parent (id));\n", fk: true, fkCheck: true, single: true},
+		// a statement fails AND foreign keys are on: rollback, pragma restored
+		{name: "fk-on-and-statement-fails", setup: append(append([]string{}, fkSetup...), "INSERT INTO child VALUES (3, NULL)"),
+			desired: parent + "CREATE TABLE child (id INTEGER PRIMARY KEY, pid INTEGER NOT NULL, CONSTRAINT c_p FOREIGN KEY (pid) REFERENCES parent (id));\n" + o, fk: true, fkCheck: true, single: true, mustErr: true},
+		// foreign keys off: nobody checks
+		{name: "fk-off-add-constraint-over-orphan", setup: fkSetup, desired: parent + childFk + o, fk: false, fkCheck: true, single: true},
+	}
+	var cs []saCase
+	for _, c := range append(single, fks...) {
+		for _, m := range []string{"", "none"} {
+			c2 := c
+			c2.txMode = m
+			cs = append(cs, c2)
+		}
+	}
 	return cs
 }
 
@@ -331,7 +433,11 @@ func runSchemaApply(w *out.W, mu *sync.Mutex, id string, c saCase) {
 		fail(err.Error())
 		return
 	}
-	if err := os.WriteFile(filepath.Join(tmp, "schema.sql"), []byte(c.desired), 0o644); err != nil {
+	desiredPath := filepath.Join(tmp, "schema.sql")
+	if c.hcl {
+		desiredPath = filepath.Join(tmp, "schema.hcl")
+	}
+	if err := os.WriteFile(desiredPath, []byte(c.desired), 0o644); err != nil {
 		fail(err.Error())
 		return
 	}
@@ -340,7 +446,26 @@ func runSchemaApply(w *out.W, mu *sync.Mutex, id string, c saCase) {
 		url += "?_fk=1"
 	}
 	before, _ := clirun.Dump(db, false)
-	common := []string{"schema", "apply", "--url", url, "--to", "file://" + filepath.Join(tmp, "schema.sql"), "--dev-url", "sqlite://dev?mode=memory"}
+	common := []string{"schema", "apply", "--url", url, "--to", "file://" + desiredPath}
+	if !c.hcl {
+		common = append(common, "--dev-url", "sqlite://dev?mode=memory")
+	}
+	if c.exclude != "" {
+		common = append(common, "--exclude", c.exclude)
+	}
+	nChanges := -1
+	if c.single {
+		n, kinds, err := countChanges(tmp, db, c.desired, c.hcl, c.exclude)
+		if err != nil {
+			fail("counting the changes of " + c.name + ": " + err.Error())
+			return
+		}
+		nChanges = n
+		if n != 1 {
+			fail(fmt.Sprintf("%s is meant to be exactly one schema.Change, the diff has %d: %v", c.name, n, kinds))
+			return
+		}
+	}
 	// the plan, as the command itself prints it
 	pr := clirun.Run(tmp, nil, append(append([]string{}, common...), "--dry-run")...)
 	afterDry, _ := clirun.Dump(db, false)
@@ -406,6 +531,14 @@ func runSchemaApply(w *out.W, mu *sync.Mutex, id string, c saCase) {
 	if r.Exit != 0 {
 		ex = "fail"
 	}
+	if c.single && len(stmts) < 2 {
+		fail(fmt.Sprintf("%s: one change is meant to be planned as several statements, got %d", c.name, len(stmts)))
+		return
+	}
+	if c.fkCheck {
+		runSchemaApplyFk(w, mu, id, c, tmp, db, replay, txm, stmts, dumps, bad, canon, state, r, before, after, nChanges)
+		return
+	}
 	// case line for the model: S txmode fk viol N bad canon_0 .. canon_N (canon of unreachable prefixes = themselves)
 	toks := []string{"S", txm, map[bool]string{false: "0", true: "1"}[c.fk], "0", fmt.Sprint(len(stmts))}
 	if bad >= 0 {
@@ -420,11 +553,17 @@ func runSchemaApply(w *out.W, mu *sync.Mutex, id string, c saCase) {
 			toks = append(toks, fmt.Sprint(j))
 		}
 	}
-	desc := fmt.Sprintf("schema apply case=%s tx-mode=%s fk=%v statements=%d failing=%d exit=%d state-after=prefix %d", c.name, txm, c.fk, len(stmts), bad, r.Exit, state)
+	desc := fmt.Sprintf("schema apply case=%s tx-mode=%s fk=%v changes=%d statements=%d failing=%d exit=%d state-after=prefix %d", c.name, txm, c.fk, nChanges, len(stmts), bad, r.Exit, state)
 	mu.Lock()
 	defer mu.Unlock()
 	w.Case(id, strings.Join(toks, " "), []string{fmt.Sprintf("exit=%s state=%d", ex, state)})
 	w.Count("schema-apply:" + txm)
+	if c.single {
+		w.Count("schema-apply:one-change-several-statements")
+		if bad > 0 {
+			w.Count("schema-apply:one-change-later-statement-fails")
+		}
+	}
 	if c.mustErr && (r.Exit == 0 || bad < 0) {
 		w.Violation(id, "schema-apply-setup", desc+": the plan was expected to fail midway but did not: "+r.Stdout)
 		return
@@ -445,5 +584,114 @@ func runSchemaApply(w *out.W, mu *sync.Mutex, id string, c saCase) {
 		w.Violation(id, "schema-apply-none-prefix", desc+": expected exactly the successful prefix")
 	case bad < 0 && after != dumps[len(stmts)]:
 		w.Violation(id, "schema-apply-incomplete", desc+": the successful command did not apply the whole plan")
+	}
+}
+
+// runSchemaApplyFk: a `schema apply` case that is judged and modelled with the
+// commit-time foreign-key check: what `PRAGMA foreign_key_check` reports before
+// the plan and after the whole plan is measured with the independent client (on
+// the untouched target and on the replay copy) and is the model's [violations]
+// function (FkModel.v: apply_changes_fk); V line.
+func runSchemaApplyFk(w *out.W, mu *sync.Mutex, id string, c saCase, tmp, db, replay, txm string, stmts, dumps []string, bad int,
+	canon func(int) int, state int, r clirun.Result, before, after string, nChanges int) {
+	fail := func(msg string) {
+		mu.Lock()
+		defer mu.Unlock()
+		w.Violation(id, "harness", msg)
+	}
+	orig := filepath.Join(tmp, "orig.db") // the target as it was: rebuilt from the setup
+	if err := clirun.Exec(orig, c.setup...); err != nil {
+		fail(err.Error())
+		return
+	}
+	vBefore, err := fkViols(orig)
+	if err != nil {
+		fail(err.Error())
+		return
+	}
+	vAfter := vBefore
+	if bad < 0 {
+		if vAfter, err = fkViols(replay); err != nil {
+			fail(err.Error())
+			return
+		}
+	}
+	ex := "ok"
+	switch {
+	case r.Exit != 0 && strings.Contains(r.Stderr, "foreign key mismatch"):
+		ex = "fkfail"
+	case r.Exit != 0:
+		ex = "fail"
+	}
+	toks := []string{"V", txm, map[bool]string{false: "0", true: "1"}[c.fk], fmt.Sprint(len(stmts))}
+	if bad >= 0 {
+		toks = append(toks, fmt.Sprint(bad))
+	} else {
+		toks = append(toks, "-")
+	}
+	for j := 0; j <= len(stmts); j++ {
+		if j < len(dumps) {
+			toks = append(toks, fmt.Sprint(canon(j)))
+		} else {
+			toks = append(toks, fmt.Sprint(j))
+		}
+	}
+	toks = append(toks, violTokens(vBefore)...)
+	toks = append(toks, violTokens(vAfter)...)
+	newViol := c.fk && txm != "none" && bad < 0 && !subset(vAfter, vBefore)
+	desc := fmt.Sprintf("schema apply case=%s tx-mode=%s fk=%v changes=%d statements=%d failing=%d foreign_key_check before=%v after the plan=%v exit=%d(%s) state-after=prefix %d", c.name, txm, c.fk, nChanges, len(stmts), bad, vBefore, vAfter, r.Exit, ex, state)
+	mu.Lock()
+	defer mu.Unlock()
+	w.Case(id, strings.Join(toks, " "), []string{fmt.Sprintf("exit=%s state=%d", ex, state)})
+	w.Count("schema-apply-fk:" + txm)
+	if newViol {
+		w.Count("schema-apply-fk:new-violation-at-commit")
+		w.NonTrivial(desc)
+	}
+	if bad >= 0 {
+		w.NonTrivial(desc)
+	}
+	if c.mustFk && txm != "none" && !newViol {
+		w.Violation(id, "schema-apply-setup", desc+": the plan was expected to run through and to leave a new foreign-key violation")
+		return
+	}
+	if c.mustErr && bad < 0 {
+		w.Violation(id, "schema-apply-setup", desc+": the plan was expected to fail midway")
+		return
+	}
+	switch {
+	case state < 0:
+		w.Violation(id, "schema-apply-unknown-state", desc+": the final state is not the state after any prefix of the plan; diff to before="+strings.Join(diffLines(before, after), " ; ")+" stderr="+r.Stderr)
+	case newViol && r.Exit == 0:
+		w.Violation(id, "schema-apply-fk-committed", desc+": the plan leaves a foreign-key violation that was not there before, and the command committed it")
+	case newViol && after != before:
+		w.Violation(id, "schema-apply-not-atomic", desc+": the commit was refused but the database changed; diff="+strings.Join(diffLines(before, after), " ; ")+" stderr="+r.Stderr)
+	case newViol:
+		// refused and nothing changed: as the property demands
+	case bad >= 0 && r.Exit == 0:
+		w.Violation(id, "schema-apply-exit", desc+": statement fails in the replay but the command succeeded")
+	case bad < 0 && r.Exit != 0:
+		w.Violation(id, "schema-apply-exit", desc+": the command failed although every statement replays and no new foreign-key violation results: stderr="+r.Stderr)
+	case bad >= 0 && txm != "none" && after != before:
+		w.Violation(id, "schema-apply-not-atomic", desc+" diff="+strings.Join(diffLines(before, after), " ; ")+" stderr="+r.Stderr)
+	case bad >= 0 && txm == "none" && after != dumps[bad]:
+		w.Violation(id, "schema-apply-none-prefix", desc+": expected exactly the successful prefix")
+	case bad < 0 && after != dumps[len(stmts)]:
+		w.Violation(id, "schema-apply-incomplete", desc+": the successful command did not apply the whole plan")
+	}
+	// the connection's pragma is the command's own; what must hold of the FILE: a later connection with
+	// foreign keys on sees exactly the violations the independent replay predicts
+	if got, err := fkViols(db); err == nil {
+		var want []string
+		known := false
+		switch {
+		case bad < 0 && len(dumps) == len(stmts)+1 && after == dumps[len(stmts)]:
+			want, known = vAfter, true
+		case after == before:
+			want, known = vBefore, true
+		}
+		if known && fmt.Sprint(got) != fmt.Sprint(want) {
+			w.Violation(id, "schema-apply-fk-state", fmt.Sprintf("%s: foreign_key_check of the target now reports %v, expected %v", desc, got, want))
+		}
 	}
 }
